@@ -571,7 +571,7 @@ class Frame:
                         if B.decide_eq0(bb, "modulus==0"):
                             raise PyRaise("ZeroDivisionError", node)
                         raise AnalysisError("engine B: negative symbolic modulus")
-                return B.mod_sym(Aff.of(a), bb)
+                return B.mod_sym(Aff.of(a), Aff.of(b))
             raise AnalysisError("engine B: division by a symbolic value")
         if isinstance(op, ast.BitAnd):
             if isinstance(a, int):
@@ -853,6 +853,10 @@ def _b_abs(ev, args, kw, node):
 
 def _b_isinstance(ev, args, kw, node):
     o, c = args
+    if isinstance(c, tuple):
+        return any(_b_isinstance(ev, [o, x], kw, node) for x in c)
+    if hasattr(o, "abstract_isinstance"):
+        return o.abstract_isinstance(c)
     if isinstance(o, Obj) and isinstance(c, ClassRef):
         return any(x.node is c.node for x in ev.mro(o.cls))
     raise AnalysisError("engine B: isinstance")
